@@ -20,4 +20,13 @@ run S14-readslice-eq-fast-path C15
 run S15-collapse-serde-skip C16 C11
 run S16-vec-reserve-vs-capacity C17
 run S17-readslice-empty-push-index C20 C14
+run S18-stride-saturating-mul C05 C19
+run S19-pushstorage-swap-when-empty C17 C20
+run S20-columns-push-readcolumns-truncates C20 C12 C13 C14
+run S21-indexlist-clear-drops-chonk C18 C05
+run S22-indexopt-clone-from-stale-spill C09
+run S23-slice-reserve-regions-underflow C10 C02
+run S24-stride-serde-untagged C16
+run S25-indexlist-clear-keeps-smol C05 C08
+run S26-indexopt-reserve-allocates C19 C03
 echo DONE >> $R
